@@ -188,3 +188,15 @@ func init() {
 		},
 	}
 }
+
+func init() {
+	properties["C13"] = Property{
+		Level: "exploration",
+		Rule: "cases = generated multi-package programs (types, funcs, vars, consts, struct fields, unexported and interface methods, generic types, embedded aliases) x configuration {default, -seed, -tiny, module-only GOGARBLE}; three-way agreement per object: the build's name of every declared identifier is read from -debugdir by pairing original and garbled declarations; our own objectpath.For over the type-checked original yields the API-reachable objects; every such object the build renamed must be listed by `garble map` under exactly the build's name, every listed path must decode and agree, the listed import path must equal the one the build's import specs use, and `garble reverse` must map each listed obfuscated name back. evaluations = programs; objects-compared is reported as a label. Non-trivial = at least 15 compared objects of at least 4 kinds; distinct = (kinds, configuration, feature set).",
+		Assumptions: append([]string{"objectpath encoding uses golang.org/x/tools v0.48.0, the version garble itself is built with", "original and garbled declarations correspond one to one in order (checked: a mismatch aborts the run as an infrastructure error)"}, commonAssumptions...),
+		ReplayUnit:  "TestC13Replay",
+		Units: []Unit{
+			{Name: "TestC13", Kind: "e2e", Checks: [2]int{4, 40}, Workers: [2]int{3, 8}},
+		},
+	}
+}
